@@ -1,4 +1,5 @@
 import StreamzVerif.Proofs.Rolling
+import StreamzVerif.Proofs.RollingNan
 /-!
 # C11 — rolling / cumulative / expanding / ewm results do not depend on batching
 
@@ -13,7 +14,11 @@ any lengths: empty batches and batches shorter than the window included); `bs.fl
 * expanding: `Sum`, `Count`, `Mean`, `Var(ddof)`; what is emitted for a batch is the reduction of
   everything seen so far (= pandas' expanding value at the batch's last row);
 * ewm: what is emitted for a batch is pandas' `ewm(com).mean()` value at the batch's last row
-  (nothing while no row has been seen), for NaN-free tables and `0 ≤ 1 - alpha`.
+  (nothing while no row has been seen), for NaN-free tables and `0 ≤ 1 - alpha`;
+* ewm on tables WITH NaN cells (recorded finding `ewm-nan-unsupported`, section at the end): the defect has its
+  own model (`ewmStepNan`: IEEE arithmetic of `EWMean.on_new`, cells `Option Rat`) and pandas its own
+  specification (`ewmAtNan`); NaN is absorbing in streamz and skipped by pandas, the two agree exactly on the
+  NaN-free tables, and a concrete witness separates them.
 -/
 namespace StreamzVerif.Rolling
 
@@ -189,6 +194,144 @@ theorem ewm_orig_stuck_after_empty_first :
     (prefixes [] [[], [1], [2, 3]]).map (ewmAt (1 / 2)) = [none, some 1, some (17 / 7)] := by
   decide +kernel
 
+/-! ### ewm().mean() on tables with NaN cells: the recorded finding `ewm-nan-unsupported`
+
+`ewmStepNan` is `EWMean` as it is in the tree run on cells that may be NaN (`none`); `ewmAtNan` is pandas'
+`ewm(alpha).mean()` (adjust=True, ignore_na=False) on such a table.  The property (emitted = pandas in one
+pass) holds on the NaN-free tables and fails as soon as a NaN cell is followed by anything pandas can
+still average. -/
+
+/-- On NaN-free tables the NaN-aware model IS the existing model `ewmStep` (outputs batch by batch), for
+every `q` and every composition — so every theorem about `ewmStep` carries over. -/
+theorem ewm_nan_free_agrees (q : Rat) (bs : List (List Rat)) :
+    (runAcc (ewmStepNan q) none (bs.map (List.map some))).2 =
+      (runAcc (ewmStep q) none bs).2.map (Option.map some) := by
+  have hfill : (bs.map (List.map some)).map fillNan = bs := by
+    induction bs with
+    | nil => rfl
+    | cons b bs ih => simp only [List.map_cons, fillNan_map_some, ih]
+  have h := (runAcc_ewmNan_sim q (bs.map (List.map some)) [] none none (Or.inl ⟨rfl, rfl, rfl⟩)).1
+  have hpre : prefixes [] (bs.map (List.map some)) = (prefixes [] bs).map (List.map some) :=
+    prefixes_map some [] bs
+  rw [h, hfill, hpre]
+  have hlen : ((prefixes [] bs).map (List.map some)).length = (runAcc (ewmStep q) none bs).2.length := by
+    simp [prefixes_length, runAcc_length]
+  apply List.ext_getElem
+  · simp [prefixes_length, runAcc_length]
+  · intro i h1 h2
+    simp only [List.getElem_zipWith, List.getElem_map, hasNan_map_some]
+    congr 1
+
+/-- … in particular batching independence on NaN-free tables, now stated on the NaN-aware model. -/
+theorem ewm_nan_free_batching_independent (q : Rat) (hq : 0 ≤ q) (bs : List (List Rat)) :
+    (runAcc (ewmStepNan q) none (bs.map (List.map some))).2 =
+      (prefixes [] bs).map (fun t => (ewmAt q t).map some) := by
+  rw [ewm_nan_free_agrees, ewm_batching_independent q hq, List.map_map]; rfl
+
+/-- What the NaN-aware model emits on ANY table and ANY composition: nothing while no row has been seen,
+NaN as soon as the rows seen so far hold one NaN cell, pandas' NaN-free value otherwise.  (So the defect does
+not depend on the batching either: the emitted value is a function of the rows seen.) -/
+theorem ewm_nan_model_characterised (q : Rat) (hq : 0 ≤ q) (bs : List (List (Option Rat))) :
+    (runAcc (ewmStepNan q) none bs).2 = (prefixes [] bs).map (ewmStreamzNanAt q) := by
+  have h := (runAcc_ewmNan_sim q bs [] none none (Or.inl ⟨rfl, rfl, rfl⟩)).1
+  have hp : prefixes [] (bs.map fillNan) = (prefixes [] bs).map fillNan := prefixes_map _ [] bs
+  rw [h, ewm_batching_independent q hq, hp, List.map_map, zipWith_map_right]
+  apply List.map_congr_left
+  intro t _
+  exact ewmStreamzNanAt_eq q t
+
+/-- `old_wt` and `is_first` do not see the NaN cells: after any batches they are what the NaN-free model has
+after the same batches with every NaN replaced by a number (the weight is per frame, not per column). -/
+theorem ewm_nan_weight_unaffected (q : Rat) (bs : List (List (Option Rat)))
+    (dfsN : List (List (Option Rat))) (stN : EwmNanSt)
+    (h : (runAcc (ewmStepNan q) none bs).1 = some (dfsN, stN)) :
+    ∃ dfs st, (runAcc (ewmStep q) none (bs.map fillNan)).1 = some (dfs, st) ∧
+      stN.oldWt = st.oldWt ∧ stN.isFirst = st.isFirst ∧ dfs = dfsN.map fillNan := by
+  rcases (runAcc_ewmNan_sim q bs [] none none (Or.inl ⟨rfl, rfl, rfl⟩)).2 with ⟨hn, _, _⟩ | ⟨a, b, c, d, h1, h2, h3, h4⟩
+  · rw [hn] at h; exact absurd h (by simp)
+  · rw [h1] at h
+    simp only [Option.some.injEq, Prod.mk.injEq] at h
+    exact ⟨c, d, h2, h.2 ▸ h4.1, h.2 ▸ h4.2.1, h.1 ▸ h3⟩
+
+/-- NaN is absorbing, for every `q`: once a batch holding a NaN cell has been folded in — after any batches
+`bs₁` whatsoever — that batch and every later batch of every continuation `bs₂` emit NaN. -/
+theorem ewm_nan_is_absorbing (q : Rat) (bs₁ : List (List (Option Rat))) (b : List (Option Rat))
+    (hb : none ∈ b) (bs₂ : List (List (Option Rat))) :
+    (runAcc (ewmStepNan q) none (bs₁ ++ b :: bs₂)).2.drop bs₁.length =
+      List.replicate (bs₂.length + 1) (some none) := by
+  have hb' : hasNan b = true := by
+    simp only [hasNan, List.any_eq_true]; exact ⟨none, hb, rfl⟩
+  have hinv := runAcc_ewmNan_inv q bs₁ none (by intro _ _ h; exact absurd h (by simp))
+  have hp := ewmStepNan_poison q _ b hinv hb'
+  have hs := runAcc_ewmNan_stuck q bs₂ _ hp.2
+  have hl : bs₁.length = (runAcc (ewmStepNan q) none bs₁).2.length := (runAcc_length _ _ _).symm
+  rw [runAcc_append, hl, List.drop_left]
+  simp only [runAcc, hp.1, hs, List.replicate_succ]
+
+/-- The same on states: from ANY state whose `result` is a NaN row, every batch sequence emits only NaN. -/
+theorem ewm_nan_state_is_stuck (q : Rat) (dfs : List (List (Option Rat))) (st : EwmNanSt)
+    (hf : st.isFirst = false) (hr : st.result = some none) (bs : List (List (Option Rat))) :
+    (runAcc (ewmStepNan q) (some (dfs, st)) bs).2 = List.replicate bs.length (some none) :=
+  runAcc_ewmNan_stuck q bs _ ⟨dfs, st, rfl, hf, hr⟩
+
+/-- The pandas specification with NaN cells, restricted to NaN-free tables, is the existing `ewmAt`. -/
+theorem ewm_nan_spec_nan_free (q : Rat) (xs : List Rat) :
+    ewmAtNan q (xs.map some) = (ewmAt q xs).map some := by
+  cases xs with
+  | nil => rfl
+  | cons x xs =>
+    have hr : (List.map some (x :: xs)).reverse = (x :: xs).reverse.map some := by simp
+    have hne : ((x :: xs).reverse.map some).isEmpty = false := by simp
+    simp only [ewmAtNan, ewmAt, ewmValNan, hr, dropWhile_isNone_map_some, hne, ewmNumNan_map_some,
+      ewmDenNan_map_some, List.length_reverse]
+    simp
+
+/-- For `q ≠ 0` the specification is the textbook weighted mean over the valid cells,
+`Σ_{valid i ≤ t} q^(t-i) x_i / Σ_{valid i ≤ t} q^(t-i)`, NaN while there is no valid cell (`ewmAtNanRaw`). -/
+theorem ewm_nan_spec_weighted_mean (q : Rat) (hq : q ≠ 0) (xs : List (Option Rat)) :
+    ewmAtNan q xs = ewmAtNanRaw q xs := by
+  have he := dropWhile_isNone_eq_nil xs.reverse
+  rw [valid_reverse] at he
+  simp only [ewmAtNan, ewmAtNanRaw, ewmValNan, he, List.isEmpty_reverse, ← ewm_ratio_dropWhile q hq]
+  split
+  · rfl
+  · split <;> rfl
+
+/-- Concrete witness of the recorded divergence, `x = [1, NaN, 3]`, alpha = 1/2, fed row by row:
+streamz emits `1, NaN, NaN` (with `old_wt` 1, 3/2, 7/4: the weight keeps counting), pandas `1, 1, 13/5`;
+fed as one batch streamz emits NaN where pandas has 13/5. -/
+theorem ewm_nan_divergence_witness :
+    (runAcc (ewmStepNan (1 / 2)) none [[some 1], [none], [some 3]]).2 = [some (some 1), some none, some none] ∧
+    (prefixes [] [[some 1], [none], [some 3]]).map (ewmAtNan (1 / 2)) =
+      [some (some 1), some (some 1), some (some (13 / 5))] ∧
+    ((runAcc (ewmStepNan (1 / 2)) none [[some 1], [none], [some 3]]).1.map (·.2.oldWt)) = some (7 / 4) ∧
+    (runAcc (ewmStepNan (1 / 2)) none [[some 1, none, some 3]]).2 = [some none] ∧
+    ewmAtNan (1 / 2) [some 1, none, some 3] = some (some (13 / 5)) := by
+  decide +kernel
+
+/-- Hence the property fails for the NaN-aware model: it is NOT true that what is emitted batch by batch is
+pandas' one-pass value at the rows seen so far (not even for a single batch, nor for one row per batch). -/
+theorem ewm_nan_not_pandas :
+    ¬ ∀ (q : Rat), 0 ≤ q → ∀ bs : List (List (Option Rat)),
+        (runAcc (ewmStepNan q) none bs).2 = (prefixes [] bs).map (ewmAtNan q) := by
+  intro h
+  have h1 := h (1 / 2) (by decide +kernel) [[some 1, none, some 3]]
+  exact absurd h1 (by decide +kernel)
+
+/-- What does hold with NaN cells: the property up to (excluding) the first batch that holds a NaN cell —
+`bs₁` NaN-free, then anything. -/
+theorem ewm_nan_partial (q : Rat) (hq : 0 ≤ q) (bs₁ : List (List Rat)) (bs₂ : List (List (Option Rat))) :
+    (runAcc (ewmStepNan q) none (bs₁.map (List.map some) ++ bs₂)).2.take bs₁.length =
+      (prefixes [] (bs₁.map (List.map some))).map (ewmAtNan q) := by
+  have hl : bs₁.length = (runAcc (ewmStepNan q) none (bs₁.map (List.map some))).2.length := by
+    simp [runAcc_length]
+  have hp : prefixes [] (bs₁.map (List.map some)) = (prefixes [] bs₁).map (List.map some) :=
+    prefixes_map some [] bs₁
+  rw [runAcc_append, hl, List.take_left, ewm_nan_free_batching_independent q hq, hp, List.map_map]
+  apply List.map_congr_left
+  intro t _
+  exact (ewm_nan_spec_nan_free q t).symm
+
 /-! ### Non-vacuity -/
 
 -- rolling(2).sum-like reduction (`agg = id` shows the windows themselves), batches [1] [] [2,3,4] []
@@ -208,5 +351,17 @@ example : (runAcc (cumStep (fun a b : Int => a + b)) []
 example : (runAcc (ewmStep (1 / 2)) none [[], [1], [2, 3]]).2 = [none, some 1, some (17 / 7)] := by
   decide +kernel
 example : (0 : Rat) ≤ 1 / 2 := by decide +kernel
+-- NaN-aware ewm: leading NaN, consecutive NaN, trailing NaN, an empty first batch (q = 1/2)
+example : (runAcc (ewmStepNan (1 / 2)) none [[], [some 1, some 2], [none, none], [some 3]]).2
+    = [none, some (some (5 / 3)), some none, some none] := by decide +kernel
+example : (prefixes [] [[], [none], [none, some 1], [none, none], [some 2, none]]).map (ewmAtNan (1 / 2))
+    = [none, some none, some (some 1), some (some 1), some (some (17 / 9))] := by decide +kernel
+-- q = 0 (alpha = 1): a NaN row repeats the previous value in pandas; the raw quotient would read 0/0
+example : ewmAtNan 0 [some 2, none] = some (some 2) ∧ ewmAtNanRaw 0 [some 2, none] = some (some 0) := by
+  decide +kernel
+-- the hypotheses of `ewm_nan_is_absorbing` / `ewm_nan_state_is_stuck` are met by a real run
+example : (none : Option Rat) ∈ [some 1, none] := by decide
+example : ∃ dfs st, (runAcc (ewmStepNan (1 / 2)) none [[some 1], [none]]).1 = some (dfs, st) ∧
+    st.isFirst = false ∧ st.result = some none := ⟨_, _, rfl, by decide +kernel, by decide +kernel⟩
 
 end StreamzVerif.Rolling
